@@ -409,6 +409,39 @@ pub fn find_json_escape(bytes: &[u8], start: usize) -> usize {
     json_escape::find(bytes, start)
 }
 
+/// Verification hook: run the JSON escape scanner with the x86 tier forced.
+#[cfg(feature = "verif-hooks")]
+pub(crate) fn verif_find_json_escape_tier(bytes: &[u8], start: usize, use_avx2: bool) -> Option<usize> {
+    #[cfg(all(
+        target_arch = "x86_64",
+        not(feature = "scalar-yaml"),
+        any(test, feature = "std")
+    ))]
+    {
+        if use_avx2 && !avx2_enabled() {
+            return None;
+        }
+        if start >= bytes.len() {
+            return Some(bytes.len());
+        }
+        return Some(json_escape::dispatch(bytes, start, use_avx2));
+    }
+    #[allow(unreachable_code)]
+    {
+        let _ = (bytes, start, use_avx2);
+        None
+    }
+}
+
+/// Verification hook: the portable scalar JSON escape scanner.
+#[cfg(feature = "verif-hooks")]
+pub(crate) fn verif_find_json_escape_scalar(bytes: &[u8], start: usize) -> usize {
+    if start >= bytes.len() {
+        return bytes.len();
+    }
+    json_escape::scalar(bytes, start)
+}
+
 // ---- Carriage-return existence scan -----------------------------------------
 //
 // The `has_cr` precheck the YAML oracle uses to pick its `HAS_CR`
